@@ -32,6 +32,95 @@ const (
 
 func (d loopDir) String() string { return [...]string{"unknown", "ascending", "descending"}[d] }
 
+// loopInfo describes a loop over a slice: elemDir reports, for an expression, whether it is the
+// current element and in which order the loop visits the elements through it (an index mirrored
+// as slice[len(slice)-1-i] visits them in the opposite order of i).
+type loopInfo struct {
+	dir     loopDir
+	slice   ast.Expr
+	body    *ast.BlockStmt
+	elemDir func(e ast.Expr) loopDir
+}
+
+// loopOverEx is loopOver plus mirrored indices; scope is the enclosing function body (used to
+// resolve a local holding len(slice)-1).
+func loopOverEx(info *types.Info, n ast.Node, scope ast.Node) loopInfo {
+	dir, slice, isElem, body := loopOver(info, n)
+	if dir == dirUnknown {
+		return loopInfo{}
+	}
+	var idx types.Object
+	switch x := n.(type) {
+	case *ast.RangeStmt:
+		if x.Key != nil {
+			idx = astx.ObjOf(info, x.Key)
+		}
+	case *ast.ForStmt:
+		if init, ok := x.Init.(*ast.AssignStmt); ok && len(init.Lhs) == 1 {
+			idx = astx.ObjOf(info, init.Lhs[0])
+		}
+	}
+	sliceKey := astx.CanonKey(info, slice)
+	isLastIndex := func(e ast.Expr) bool {
+		e = astx.Unparen(e)
+		if id, ok := e.(*ast.Ident); ok {
+			if def := soleDefinition(info, scope, astx.ObjOf(info, id)); def != nil {
+				e = astx.Unparen(def)
+			}
+		}
+		b, ok := e.(*ast.BinaryExpr)
+		if !ok || b.Op != token.SUB {
+			return false
+		}
+		one, isC := astx.ConstInt(info, b.Y)
+		lc, isCall := astx.Unparen(b.X).(*ast.CallExpr)
+		return isC && one == 1 && isCall && len(lc.Args) == 1 && astx.IsBuiltin(info, lc, "len") && astx.CanonKey(info, lc.Args[0]) == sliceKey
+	}
+	mirrored := func(e ast.Expr) bool {
+		ie, ok := astx.Unparen(e).(*ast.IndexExpr)
+		if !ok || idx == nil || astx.CanonKey(info, ie.X) != sliceKey {
+			return false
+		}
+		b, ok := astx.Unparen(ie.Index).(*ast.BinaryExpr)
+		if !ok || b.Op != token.SUB || astx.ObjOf(info, b.Y) != idx {
+			// len(s)-1-i parses as (len(s)-1)-i; len(s)-i-1 as (len(s)-i)-1
+			if ok && b.Op == token.SUB {
+				if one, isC := astx.ConstInt(info, b.Y); isC && one == 1 {
+					if in, ok2 := astx.Unparen(b.X).(*ast.BinaryExpr); ok2 && in.Op == token.SUB && astx.ObjOf(info, in.Y) == idx {
+						if lc, ok3 := astx.Unparen(in.X).(*ast.CallExpr); ok3 && len(lc.Args) == 1 && astx.IsBuiltin(info, lc, "len") && astx.CanonKey(info, lc.Args[0]) == sliceKey {
+							return true
+						}
+					}
+				}
+			}
+			return false
+		}
+		return isLastIndex(b.X)
+	}
+	mirrorVars := map[types.Object]bool{}
+	ast.Inspect(body, func(x ast.Node) bool {
+		if as, ok := x.(*ast.AssignStmt); ok && len(as.Lhs) == 1 && len(as.Rhs) == 1 && mirrored(as.Rhs[0]) {
+			if o := astx.ObjOf(info, as.Lhs[0]); o != nil {
+				mirrorVars[o] = true
+			}
+		}
+		return true
+	})
+	flip := map[loopDir]loopDir{dirAsc: dirDesc, dirDesc: dirAsc}
+	return loopInfo{dir: dir, slice: slice, body: body, elemDir: func(e ast.Expr) loopDir {
+		if isElem(e) {
+			return dir
+		}
+		if mirrored(e) {
+			return flip[dir]
+		}
+		if o := astx.ObjOf(info, astx.Unparen(e)); o != nil && mirrorVars[o] {
+			return flip[dir]
+		}
+		return dirUnknown
+	}}
+}
+
 // loopOver classifies a loop's direction and returns the slice expression iterated and
 // a predicate recognising the element expression.
 func loopOver(info *types.Info, n ast.Node) (dir loopDir, slice ast.Expr, isElem func(e ast.Expr) bool, body *ast.BlockStmt) {
@@ -175,17 +264,47 @@ func chainType(p *core.Program) (*types.Named, *types.Var) {
 	return nil, nil
 }
 
-// chainConstructor finds the function that appends to the chain's interceptor field.
-func chainConstructor(p *core.Program, field *types.Var) (*ast.FuncDecl, *ast.AssignStmt) {
+// chainConstructor finds the function that builds the chain's interceptor list by appending: the
+// append target is the field itself or a local slice that the same function stores in the field
+// (`x.field = acc` or `chain{field: acc}`). isTarget recognises the target expression.
+func chainConstructor(p *core.Program, field *types.Var) (*ast.FuncDecl, *ast.AssignStmt, func(ast.Expr) bool) {
 	info := p.Connect.TypesInfo
 	for _, fd := range p.AllFuncDecls(p.Connect) {
+		// locals stored into the field
+		stored := map[types.Object]bool{}
+		ast.Inspect(fd.Body, func(n ast.Node) bool {
+			switch x := n.(type) {
+			case *ast.KeyValueExpr:
+				if k, ok := x.Key.(*ast.Ident); ok && info.Uses[k] == types.Object(field) {
+					if o := astx.ObjOf(info, x.Value); o != nil {
+						stored[o] = true
+					}
+				}
+			case *ast.AssignStmt:
+				if len(x.Lhs) == 1 && len(x.Rhs) == 1 && astx.FieldOf(info, x.Lhs[0]) == field {
+					if o := astx.ObjOf(info, x.Rhs[0]); o != nil {
+						if v, ok := o.(*types.Var); ok && !v.IsField() {
+							stored[o] = true
+						}
+					}
+				}
+			}
+			return true
+		})
+		isTarget := func(e ast.Expr) bool {
+			if astx.FieldOf(info, e) == field {
+				return true
+			}
+			o := astx.ObjOf(info, e)
+			return o != nil && stored[o]
+		}
 		var hit *ast.AssignStmt
 		ast.Inspect(fd.Body, func(n ast.Node) bool {
 			as, ok := n.(*ast.AssignStmt)
 			if !ok || len(as.Lhs) != 1 || len(as.Rhs) != 1 {
 				return true
 			}
-			if astx.FieldOf(info, as.Lhs[0]) != field {
+			if !isTarget(as.Lhs[0]) {
 				return true
 			}
 			if call, ok := as.Rhs[0].(*ast.CallExpr); ok {
@@ -196,10 +315,10 @@ func chainConstructor(p *core.Program, field *types.Var) (*ast.FuncDecl, *ast.As
 			return true
 		})
 		if hit != nil {
-			return fd, hit
+			return fd, hit, isTarget
 		}
 	}
-	return nil, nil
+	return nil, nil, nil
 }
 
 func chainParity(c *core.Ctx) {
@@ -210,7 +329,7 @@ func chainParity(c *core.Ctx) {
 		c.Unresolved("chain-type", "no struct implementing Interceptor with a []Interceptor field")
 		return
 	}
-	ctor, appendStmt := chainConstructor(p, field)
+	ctor, appendStmt, isTarget := chainConstructor(p, field)
 	if ctor == nil {
 		c.Unresolved("chain-constructor", "no function appends to %s.%s", chain.Obj().Name(), field.Name())
 		return
@@ -226,7 +345,8 @@ func chainParity(c *core.Ctx) {
 		c.Undecided("constructor/loop", appendStmt.Pos(), "the append to %s is not inside a loop", field.Name())
 		return
 	}
-	dir, slice, isElem, _ := loopOver(info, ctorLoop)
+	li := loopOverEx(info, ctorLoop, ctor.Body)
+	dir, slice := li.dir, li.slice
 	call := appendStmt.Rhs[0].(*ast.CallExpr)
 	// append(field, elem) keeps iteration order; append([]T{elem}, field...) reverses it
 	var reversed bool
@@ -234,10 +354,12 @@ func chainParity(c *core.Ctx) {
 	case dir == dirUnknown:
 		c.Undecided("constructor/loop", ctorLoop.Pos(), "loop shape not recognised (need range, or index loop 0..len-1 / len-1..0)")
 		return
-	case len(call.Args) == 2 && !call.Ellipsis.IsValid() && astx.FieldOf(info, call.Args[0]) == field && isElem(call.Args[1]):
+	case len(call.Args) == 2 && !call.Ellipsis.IsValid() && isTarget(call.Args[0]) && li.elemDir(call.Args[1]) != dirUnknown:
+		dir = li.elemDir(call.Args[1])
 		reversed = dir == dirDesc
-	case len(call.Args) == 2 && call.Ellipsis.IsValid() && astx.FieldOf(info, call.Args[1]) == field:
-		if lit, ok := astx.Unparen(call.Args[0]).(*ast.CompositeLit); ok && len(lit.Elts) == 1 && isElem(lit.Elts[0]) {
+	case len(call.Args) == 2 && call.Ellipsis.IsValid() && isTarget(call.Args[1]):
+		if lit, ok := astx.Unparen(call.Args[0]).(*ast.CompositeLit); ok && len(lit.Elts) == 1 && li.elemDir(lit.Elts[0]) != dirUnknown {
+			dir = li.elemDir(lit.Elts[0])
 			reversed = dir == dirAsc
 		} else {
 			c.Undecided("constructor/append", call.Pos(), "prepend form not recognised")
@@ -283,8 +405,17 @@ func chainParity(c *core.Ctx) {
 			c.Undecided(key, loops[0].Pos(), "loop does not iterate %s in a recognised shape", field.Name())
 			continue
 		}
-		// body: next = elem.M(next), single statement; return next
+		// body: next = elem.M(next), single statement; return next. The accumulator is the
+		// parameter itself or a local initialised with it.
 		param := info.Defs[fd.Type.Params.List[0].Names[0]]
+		for _, st := range fd.Body.List {
+			if as, ok := st.(*ast.AssignStmt); ok && as.Tok == token.DEFINE && len(as.Lhs) == 1 && len(as.Rhs) == 1 && astx.ObjOf(info, as.Rhs[0]) == param {
+				if def := soleDefinitionOutsideLoops(info, fd.Body, astx.ObjOf(info, as.Lhs[0])); def {
+					param = astx.ObjOf(info, as.Lhs[0])
+				}
+				break
+			}
+		}
 		okBody := false
 		if len(wbody.List) == 1 {
 			if as, ok := wbody.List[0].(*ast.AssignStmt); ok && as.Tok == token.ASSIGN && len(as.Lhs) == 1 && len(as.Rhs) == 1 && astx.ObjOf(info, as.Lhs[0]) == param {
@@ -320,7 +451,7 @@ func nilSkipped(c *core.Ctx) {
 		c.Unresolved("chain-type", "chain type not found")
 		return
 	}
-	ctor, appendStmt := chainConstructor(p, field)
+	ctor, appendStmt, _ := chainConstructor(p, field)
 	if ctor == nil {
 		c.Unresolved("chain-constructor", "not found")
 		return
@@ -372,7 +503,7 @@ func chainConcatOrder(c *core.Ctx) {
 		c.Unresolved("chain-type", "chain type not found")
 		return
 	}
-	ctor, _ := chainConstructor(p, field)
+	ctor, _, _ := chainConstructor(p, field)
 	if ctor == nil {
 		c.Unresolved("chain-constructor", "not found")
 		return
